@@ -142,4 +142,24 @@ theorem absorb2_spec (a b : List Nat) (n : Nat) :
   rw [h', ok_bind]
 
 
+/-- absorbing three pieces, finalizing and squeezing = SHAKE-256 of the concatenation -/
+theorem absorb3_spec (a b c : List Nat) (n : Nat) :
+    (shake256_absorb KeccakState.init a a.length >>= fun st => shake256_absorb st b b.length >>= fun st =>
+      shake256_absorb st c c.length >>= fun st =>
+      shake256_finalize st >>= fun st => shake256_squeeze n n st >>= fun r => (.ok r.1 : Chk (List Nat))) = .ok (SHAKE256 (a ++ b ++ c) n) := by
+  unfold shake256_absorb
+  rw [keccak_absorb_eq keccakf R256 KeccakState.init a (by decide), ok_bind]
+  have hip : KeccakState.init.pos = 0 := rfl
+  rw [hip]
+  have hp := absorbSpec_pos_lt keccakf R256 a.length KeccakState.init.s 0 a rfl (by decide : 0 < R256)
+  rw [keccak_absorb_eq keccakf R256 (absorbSpec keccakf R256 KeccakState.init.s 0 a) b hp, ok_bind,
+    ← absorbSpec_append keccakf R256 a.length KeccakState.init.s 0 a b rfl (by decide)]
+  have hp2 := absorbSpec_pos_lt keccakf R256 (a ++ b).length KeccakState.init.s 0 (a ++ b) rfl (by decide : 0 < R256)
+  rw [keccak_absorb_eq keccakf R256 (absorbSpec keccakf R256 KeccakState.init.s 0 (a ++ b)) c hp2, ok_bind,
+    ← absorbSpec_append keccakf R256 (a ++ b).length KeccakState.init.s 0 (a ++ b) c rfl (by decide)]
+  obtain ⟨st, h, hpos, hs⟩ := finalize256_of_spec (a ++ b ++ c)
+  rw [h, ok_bind]
+  obtain ⟨st', h'⟩ := squeeze_final_spec (a ++ b ++ c) st hpos hs n
+  rw [h', ok_bind]
+
 end DV.XofSpec
